@@ -458,4 +458,21 @@ theorem prelude_single (call : CallFn N) (ρ : ExtOracle N) (k : Nat) (env : Env
   rw [e3]
 
 
+/-- the closure created by `function M.<name>(): typeof(__modImpl()) … end` in environment `locals` -/
+def accClosure (M name : String) (locals : List (String × Nat)) : Closure N := ⟨accFn M name, locals, []⟩
+
+/-- the closure created by `local function __modImpl() <body> end` -/
+def implClosure (body : Block) (locals : List (String × Nat)) : Closure N := ⟨implFn body, locals, []⟩
+
+/-- What a later state must still have for the accessor of `name` to answer from its box `tb`:
+the modules table, its `cache` table, the box stored under `name`, the boxed value. -/
+structure Boxed (locals : List (String × Nat)) (M name : String) (cM tM tC tb : Nat) (w : Val N) (σ : State N) : Prop where
+  hM : lookupAssoc M locals = some cM
+  cellM : σ.getCell cM = .tbl tM
+  cache : σ.rawGet tM (strVal "cache") = .tbl tC
+  box : σ.rawGet tC (strVal name) = .tbl tb
+  content : σ.rawGet tb (strVal "c") = w
+  plain : (σ.getTable tb).mt = none
+
+
 end DarkluaModel.C05
